@@ -9312,6 +9312,9 @@ def aten_sparse_mask(self: TensorType, mask: TensorType) -> TensorType:
 def aten_split(self: TTensor, split_size: INT64, dim: int = 0) -> TTensor:
     """split.Tensor(Tensor(a -> *) self, SymInt split_size, int dim=0) -> Tensor(a)[]"""
 
+    if isinstance(self.shape[dim], int) and self.shape[dim] == 0:
+        # torch.split returns one empty piece for an empty dimension; SplitToSequence returns no piece
+        return op.SequenceConstruct(self)
     return op.SplitToSequence(self, split_size, axis=dim)
 
 
